@@ -79,7 +79,15 @@ def e_aperture_stats(inp):
     ap = inp.get('aperture5') or CircularAperture(_positions() + [(1.0, 1.0)], 4.0)
     sc = (inp.get('sigma_clip_obj') or SigmaClip(3.0)) if inp.get('sigclip') else None
     st = ApertureStats(inp['data'], ap, error=inp.get('error'), mask=inp.get('mask'), sigma_clip=sc, local_bkg=inp.get('local_bkg'))
-    return {p: getattr(st, p) for p in st.properties if p not in ('sky_centroid', 'sky_centroid_icrs')}
+    out = {p: getattr(st, p) for p in st.properties if p not in ('sky_centroid', 'sky_centroid_icrs')}
+    if inp.get('local_bkg') is None and sc is None:
+        # integer-valued local backgrounds (scalar and per aperture), as read from an integer table column
+        d = inp['data']
+        un = getattr(d, 'unit', None)
+        for tag, lb in (('lbi', np.array([1, 2, 0, 3, 1][:len(ap)])), ('lbs', 2)):
+            st2 = ApertureStats(d, ap, error=inp.get('error'), mask=inp.get('mask'), local_bkg=lb if un is None else lb * un)
+            out.update({f'{tag}_{p}': getattr(st2, p) for p in ('sum', 'mean', 'min', 'max', 'xcentroid', 'std')})
+    return out
 
 
 def e_background2d(inp):
@@ -375,7 +383,11 @@ def e_profiles(inp):
     cg = CurveOfGrowth(inp['data'], (22.0, 12.0), np.arange(1, 8), error=inp.get('error'), mask=inp.get('mask'))
     out = [rp.profile, rp.profile_error, rp.area, rp.data_profile, rp.data_radius, cg.profile, cg.profile_error, cg.area]
     rp.normalize(); cg.normalize('sum')
-    return out + [rp.profile, cg.profile]
+    out += [rp.profile, cg.profile]
+    # documented: unnormalize() restores the original state - values AND units
+    rp.unnormalize(); cg.unnormalize()
+    unit = lambda v: str(getattr(v, 'unit', ''))  # noqa
+    return out + [rp.profile, cg.profile, rp.profile_error, bool(unit(rp.profile) == unit(out[0]) and unit(cg.profile) == unit(out[5]))]
 
 
 def _psf_model():
